@@ -1032,6 +1032,18 @@ class _MaProxy:
     def masked_array(self, a, mask=False, **k): return _Masked(mask if mask is not False else np.zeros(np.shape(a), dtype=bool), a)
     def __getattr__(self, name): raise Unsupported('np.ma.' + name)
 
+class _LinalgProxy:
+    """LAPACK is not encoded.  Only harnesses that do not look at the numerical result may switch on the stub below
+    (CFG['linalg_solve_stub']): solve(B, b) then returns an arbitrary vector of positive reals of b's shape."""
+    def __getattr__(self, name):
+        if name == 'solve' and CFG.get('linalg_solve_stub'): return self._solve
+        raise Unsupported('np.linalg.%s (LAPACK) is not encoded' % name)
+    def _solve(self, B, b):
+        b = S(b); e = E()
+        out = np.empty(b.shape, dtype=object)
+        for idx in np.ndindex(b.shape): out[idx] = e.fresh('solve', 'R', lo=0, lo_open=True)
+        return S(out, 'f')
+
 class NpProxy:
     """forwards everything to numpy except array creators and the few functions that cannot dispatch"""
     def __init__(self, random=None):
@@ -1069,8 +1081,11 @@ class NpProxy:
         o = np.frompyfunc(lambda v: coerce_store(v, dk), 1, 1)(o) if o.size else o.copy()
         return S(np.array(o, dtype=object), dk)
     def asarray(self, x, dtype=None, **k):
-        if isinstance(x, SymArray) and dtype is None: return x
+        # numpy hands back the caller's own array when no conversion is needed (dtype absent or of the array's own kind)
+        if isinstance(x, SymArray) and (dtype is None or dtype_kind(dtype) == x.dk): return x
         return self.array(x, dtype)
+    @property
+    def linalg(self): return _LinalgProxy()
     def round(self, x, decimals=0, *a):
         if isinstance(x, (int, float, np.floating, np.integer)) and not isinstance(x, bool): return np.round(x, decimals)
         if isinstance(x, Fraction) and decimals == 0: return np.float64(round(x))     # half-to-even, like numpy
